@@ -80,7 +80,7 @@ def value_core():
            'aaa bbb ccc ddd eee', 'aaa\nbbb\n\nccc\n', '  x\n y\n', 'x\n\n', '\U0001F600\ufeff', '\ufffe', 'a\x07b', 'yes', '1', '~', '<<', '1:30']
     out += [('str:' + repr(s), (lambda s=s: s)) for s in two]
     out += [('bnd:' + repr(s), (lambda s=s: [s, 'a' + s + 'b', {s + 'k': s}])) for s in U.BOUNDARY]
-    out += [('str-in:' + repr(s), (lambda s=s: {'k': [s, {s: s}], 'j': {'n': [[s]]}})) for s in ['x', 'a\nb', 'é', ' lead', 'aaa bbb ccc ddd', '', 'k' * 130]]
+    out += [('str-in:' + repr(s), (lambda s=s: {'k': [s, {s: s}], 'j': {'n': [[s]]}})) for s in ['x', 'a\nb', 'é', ' lead', 'aaa bbb ccc ddd', '', 'k' * 130, '\U0001F600' * 103, '\u20ac' * 127]]
     out += [('leaf:%d' % i, (lambda v=v: v)) for i, v in enumerate(U.LEAVES[:31])]
     out += [('leaves-list', lambda: list(U.LEAVES)), ('keys', lambda: {k: i for i, k in enumerate(U.KEYABLE)}), ('set', lambda: set(U.KEYABLE[:8])),
             ('shared', _shared), ('rec', _rec), ('empty-list', lambda: []), ('empty-dict', lambda: {}), ('nested-seq', lambda: [[1, [2, [3]]], [[4]]]),
